@@ -31,7 +31,14 @@ META_PART = (
     "exactly four finite bounds with min < max on both axes - refuted before the repair of Servo.__init__ in the project); the "
     "extracted model is run against the real class on exhaustive op pairs over a boundary alphabet from 11 seed states of 3 "
     "calibrations, a constructor table and seeded random histories, comparing outcome, return value, every attribute and "
-    "the level events per op."
+    "the level events per op. BINARY64 (Host/ServoFloat.v: the five rounded operations of each map, fl53): the bound clauses are exact "
+    "inequalities - C19_servo_binary64_pulse_bound_refuted / _angle_bound_refuted (witnesses: an in-range write leaves the pulse / angle one ulp "
+    "above its bound for unlucky bounds, finding F-C19-servo-bound-ulp), C19_servo_binary64_bounds_reachable_partial / _step_partial / "
+    "_map_within_bounds_partial (guard servo_top_ok = the image of the top of each range is not above the bound: angle and pulse stay "
+    "within their bounds EXACTLY after every history), C19_binary64_rounding_monotone / _idempotent, C19_servo_binary64_guard_is_executable, "
+    "C19_servo_binary64_write_roundtrip / _write_us_roundtrip (the commanded coordinate is stored as given), _failed_call_atomic, "
+    "_config_constant; the extracted binary64 model is compared BIT FOR BIT (no tolerance) with the real class on the pairs / random / "
+    "random-decimal streams and on one-decimal calibrations inside the guard written at both ends, one ulp inside them and at decimal interior points."
 )
 
 H = Fr(1, 2)
@@ -472,17 +479,21 @@ def run_unit(ctx: C.Ctx) -> dict:
                     "50%" if ctx.tier == "thorough" else "30%")),
         "samples": samples,
         "distribution": dist,
-        "guard": ("none: no listed finding excludes anything (F-C19-servo-nonfinite-bound is repaired, kind=fixed; NaN / infinite calibration bounds are generated "
-                  "and judged like every other argument, its witness is replayed first). The streams of the finite model use ints, bools, None and dyadic floats"),
+        "guard": ("F-C19-servo-bound-ulp: generated calibrations satisfy, in binary64, min + (max - min) <= max on both axes (in_guard = Host/ServoFloat.v "
+                  "servo_top_ok, the guard of C19_servo_binary64_bounds_reachable_partial); calibrations outside it are counted "
+                  "(servo_calibrations_outside_the_guard_not_generated) and never generated - the witness of the finding is replayed on every run. "
+                  "F-C19-servo-nonfinite-bound is repaired (kind=fixed, excludes nothing, witness replayed first). Inside the guard the bound clauses and the "
+                  "write/read round trips are judged with EXACT comparisons after every call (no tolerance); only the clause 'angle and pulse correspond under "
+                  "the linear map' - two float computations of the same real quantity - is compared to 1e-9"),
         "unmodelled": [
-            "binary64 rounding: model floats are exact rationals; compared to 1e-9 relative (a one-ulp excursion of a servo bound under write_us is float rounding, tolerated)",
+            "binary64 overflow / subnormals: the binary64 model (fl53) has an unbounded exponent - it is IEEE-754 binary64 for bounds and arguments of magnitude 2^-1000 .. 2^1000, which is what is generated; the exact-rational model is still compared to 1e-9 on every stream",
             "IEEE specials (NaN, inf), -0.0, strings and ints beyond the float range as arguments of write/write_us: sent to the implementation only, oracle = invariant + atomicity of failing calls",
             "OverflowError of float() on a huge int calibration bound", "Servo.__repr__ (debug helper)", "keyword-argument calls (C08's subject); direct writes to the attributes",
         ],
         "trusted_base": [
             "harness/gen/c19_motor.py (reads the Servo constructor defaults and the public method signatures from the current source; fail-closed)",
             "harness/impl/c19_servo_impl.py + c19_sm_runner.py (drive the real class; level events recorded by wrapping Servo.write/write_us)",
-            "harness/props/c19_servo.py + harness/c19_sm.py (generators, comparison with 1e-9 float tolerance, oracle)",
+            "harness/props/c19_servo.py + harness/c19_sm.py (generators, comparison with 1e-9 float tolerance for the rational model and bit for bit for the binary64 model, oracle with exact bound clauses)",
         ],
         "assumptions": ["Python floats behave as exact rationals up to 1e-9 on the generated dyadic inputs (measured by the correspondence)",
                         "Servo objects are only driven through their public methods"],
